@@ -1,4 +1,4 @@
-\* C19 thorough: expression trees as command-call arguments / other base layouts
+\* C19 thorough: every expression tree as command-call argument and as assignment source, three more base layouts
 SPECIFICATION LSpec
 CONSTANTS
   Foci = {"prec", "ops", "postfix", "lambda", "lit", "atoms", "slidx", "cmd"}
